@@ -794,6 +794,12 @@ class Interp:
         lo, hi = st.range(v.aff)
         bs = []
         sg = v.aff.single()
+        if (sg is None or sg[1] != 1 or sg[2] != 0) and lo >= 0 and hi < (1 << width) and lo < hi and len(v.aff.t) <= 3:
+            # name the value so that its bits can be tracked: z == aff
+            z = self.pure_int(st, ("alias", v.aff), "v", (width, False), lo, hi, ("alias", v.aff))
+            st.add_fact(z.aff - v.aff)
+            st.add_fact(v.aff - z.aff)
+            sg = z.aff.single()
         for i in range(width):
             if lo >= 0 and hi < (1 << i):
                 bs.append(0)
@@ -829,6 +835,14 @@ class Interp:
         lo = sum((1 if b == 1 else 0) << i for i, b in enumerate(bits))
         r = self.fresh_int(st, hint, ty, lo, hi, info=("bits", bits))
         r.bits = bits
+        # a pure mask of one symbol (r = s & m): s - r >= 0 and s <= r + (bits of s outside m)
+        if len(syms) == 1 and not any(b == 1 or b is None for b in bits) and all(b[2] == i for i, b in enumerate(bits) if isinstance(b, tuple)):
+            s = next(iter(syms))
+            slo, shi = st.lo_hi(s)
+            if slo >= 0 and shi < (1 << 64):
+                rest = sum(1 << i for i in range(max(shi.bit_length(), 1)) if i >= w or not isinstance(bits[i], tuple))
+                st.add_fact(Aff.sym(s) - r.aff)
+                st.add_fact(r.aff + rest - Aff.sym(s))
         return r
 
     def binop(self, ctx, st, op, a, b, ty_a, site):
